@@ -7,6 +7,7 @@ import (
 	"fmt"
 	"os"
 	"runtime/debug"
+	"syscall"
 	"time"
 
 	"verif/checks"
@@ -35,14 +36,22 @@ func main() {
 	replay := flag.String("replay", "", "replay file to execute")
 	budget := flag.Duration("budget", 0, "override the wall-clock budget")
 	list := flag.Bool("list", false, "list properties")
+	unit := flag.String("unit", "", "run only the directly enumerated unit with this name (isolated sub-process mode)")
+	memLimit := flag.Uint64("rlimit-as", 16<<30, "address-space limit in bytes (0 = none)")
 	flag.Parse()
+	if *memLimit > 0 {
+		// a peer-declared length must never be able to take the sandbox down
+		lim := syscall.Rlimit{Cur: *memLimit, Max: *memLimit}
+		syscall.Setrlimit(syscall.RLIMIT_AS, &lim)
+	}
 	if *list {
 		for _, id := range checks.IDs() {
 			fmt.Println(id)
 		}
 		return
 	}
-	debug.SetGCPercent(400)
+	debug.SetGCPercent(200)
+	debug.SetMemoryLimit(2 << 30) // collect eagerly: damaged frames make the client reserve garbage lengths
 	vrt.SelfTest()
 	p := checks.Get(*prop)
 	if p == nil {
@@ -51,6 +60,34 @@ func main() {
 	}
 	if *replay != "" {
 		os.Exit(doReplay(p, *replay))
+	}
+	if *unit != "" {
+		// isolated mode: exit 0 = held, 3 = finding (printed), anything else = crash
+		r := explore.NewRunner(p.ID, 0, 1, time.Time{}, "")
+		checks.SetIsolatedChild()
+		found := false
+		if p.Units != nil {
+			for _, u := range p.UnitsByName(*unit) {
+				found = true
+				res, _ := explore.RunOnce(u, nil)
+				if f := u.Check(res); f != nil {
+					fmt.Printf("FINDING %s: %s\n", f.Class, f.Msg)
+					os.Exit(3)
+				}
+				r.Stats.Executions++
+			}
+		}
+		if !found && p.Direct != nil {
+			p.Direct(&checks.Ctx{R: r, Thorough: true, Filter: *unit, Isolated: true})
+		}
+		for _, v := range r.Stats.Violations {
+			fmt.Printf("FINDING %s: %s\n", v.Class, v.Msg)
+		}
+		if len(r.Stats.Violations) > 0 {
+			os.Exit(3)
+		}
+		fmt.Printf("ran %d case(s)\n", r.Stats.Executions)
+		os.Exit(0)
 	}
 	thorough := *tier == "thorough"
 	b := p.Quick
